@@ -22,6 +22,7 @@ func init() {
 
 func runC18(p *eng.Prog, r *eng.Report, tier string) {
 	c := &cx{p, r, tier}
+	r19LeaveAlwaysAsks(c, "C18.35")
 	r18RejoinAlwaysAsks(c, "C18.33")
 	r18HandOffComparesWholeNames(c, "C18.32")
 	r17JoinOptionsPerCall(c, "C18.29")
@@ -408,6 +409,11 @@ func runC18(p *eng.Prog, r *eng.Report, tier string) {
 	handoffWithdrawn(c, "C18.6", "muc", "(*Channel).JoinPresence", "muc.Channel.join")
 	// C18.7 membership ends only where the room's unavailable presence is
 	// processed: nobody else deletes from Client.managed
+	n141 := 0
+	// C18.34 (F141): a first join that is not confirmed (refused, cancelled,
+	// timed out) leaves nothing behind in Client.managed: Joined() reports
+	// membership only after a successful join
+	defer func() { c.r.Floor("C18.34", "take-back of the registration of an unconfirmed join", n141, 1) }()
 	for _, f := range c.allFns() {
 		if f.Short == "muc.(*Client).HandlePresence" {
 			continue
@@ -418,6 +424,14 @@ func runC18(p *eng.Prog, r *eng.Report, tier string) {
 				// count us among its occupants (any more); only there, and only
 				// while the entry is still this channel
 				c.dom("C18.7", f, mu.Node, "membership removed when the leave is answered with an error", []string{"selectarm(recv local:*<chan error>)", "eq(recv,recv.client.managed[*])"})
+				continue
+			}
+			if k, _ := f.FieldClass(mu.Map); k == "muc.Client.managed" && mu.Delete && strings.HasPrefix(f.Short, "muc.(*Channel).JoinPresence$") {
+				// a join that was never confirmed, by a channel that was not
+				// registered before it asked: the registration this call made is
+				// taken back (F141); only while the entry is still this channel
+				c.dom("C18.7", f, mu.Node, "registration of an unconfirmed join taken back", []string{"!*joined*", "!*wasManaged*", "eq(*,*.client.managed[*])"})
+				n141++
 				continue
 			}
 			if k, _ := f.FieldClass(mu.Map); k == "muc.Client.managed" && mu.Delete {
